@@ -11,7 +11,6 @@ import (
 
 	"golang.org/x/tools/go/packages"
 	"golang.org/x/tools/go/ssa"
-	"golang.org/x/tools/go/ssa/ssautil"
 )
 
 type PkgInfo struct {
@@ -68,7 +67,44 @@ func Load(repoDir, verifDir string, patterns []string) (*Engine, error) {
 	if len(errs) > 0 {
 		return nil, fmt.Errorf("package load errors: %s", strings.Join(errs, "; "))
 	}
-	prog, spkgs := ssautil.Packages(pkgs, ssa.NaiveForm|ssa.InstantiateGenerics)
+	// SSA packages: with function bodies for the requested packages and for the other packages of the
+	// repository's module they import (a small helper there can then be executed in place when it has
+	// no contract, calls.go, instead of pushing its caller out of the subset); from type information
+	// only for everything outside the module (reached through the trusted library contracts).
+	var fset *token.FileSet
+	if len(pkgs) > 0 {
+		fset = pkgs[0].Fset
+	}
+	prog := ssa.NewProgram(fset, ssa.NaiveForm|ssa.InstantiateGenerics)
+	mod := ""
+	if data, err := os.ReadFile(filepath.Join(repoDir, "go.mod")); err == nil {
+		for _, line := range strings.Split(string(data), "\n") {
+			if strings.HasPrefix(line, "module ") {
+				mod = strings.TrimSpace(strings.TrimPrefix(line, "module "))
+				break
+			}
+		}
+	}
+	initial := map[*packages.Package]bool{}
+	for _, p := range pkgs {
+		initial[p] = true
+	}
+	created := map[*packages.Package]*ssa.Package{}
+	packages.Visit(pkgs, nil, func(p *packages.Package) {
+		if p.Types == nil || p.IllTyped {
+			return
+		}
+		inMod := mod != "" && (p.PkgPath == mod || strings.HasPrefix(p.PkgPath, mod+"/"))
+		if (initial[p] || inMod) && len(p.Syntax) > 0 && p.TypesInfo != nil {
+			created[p] = prog.CreatePackage(p.Types, p.Syntax, p.TypesInfo, true)
+		} else {
+			prog.CreatePackage(p.Types, nil, nil, true)
+		}
+	})
+	spkgs := make([]*ssa.Package, len(pkgs))
+	for i, p := range pkgs {
+		spkgs[i] = created[p]
+	}
 	prog.Build()
 	e := &Engine{RepoDir: repoDir, VerifDir: verifDir, prog: prog, pkgs: map[string]*PkgInfo{}, byShort: map[string]*PkgInfo{}, allPkgs: map[string]*packages.Package{}}
 	if len(pkgs) > 0 {
